@@ -5,6 +5,7 @@ package harness
 // presented message is replayed on ONE real ServiceProvider.
 
 import (
+	"bytes"
 	"encoding/base64"
 	"encoding/json"
 	"fmt"
@@ -18,7 +19,8 @@ import (
 type trustStep struct {
 	A    string   `json:"a"`
 	T    []string `json:"t"`
-	Kind string   `json:"kind"`
+	Kind  string   `json:"kind"`
+	Level string   `json:"level"`
 	K    string   `json:"k"`
 	V    string   `json:"v"`
 }
@@ -29,6 +31,15 @@ type trustHist struct {
 
 var trustKeyName = map[string]string{"K1": "idp1", "K2": "idp2", "KA": "att"}
 
+// form names the presented message: "logout", "response" (signed on the Response), "response.as" (signed on
+// the Assertion only), "tampered" (the response.as message of the key, content altered after signing)
+func (s trustStep) form() string {
+	if s.Kind == "response" && s.Level == "assertion" {
+		return "response.as"
+	}
+	return s.Kind
+}
+
 func (h trustHist) sig() string {
 	var parts []string
 	for _, s := range h.Hist {
@@ -36,7 +47,7 @@ func (h trustHist) sig() string {
 		case "init", "set":
 			parts = append(parts, s.A+"{"+strings.Join(s.T, ",")+"}")
 		default:
-			parts = append(parts, s.Kind+"/"+s.K)
+			parts = append(parts, s.form()+"/"+s.K)
 		}
 	}
 	return strings.Join(parts, ">")
@@ -62,7 +73,7 @@ func trustMetadata(t []string) *saml.EntityDescriptor {
 func trustHistoryRun(t *testing.T, prop, kind string) {
 	rep := NewReport(prop)
 	defer rep.Finish(t)
-	rep.Rule = "every history of spec/SPTrustHistory.tla (initial trust set, then up to MaxLen steps of: replace / edit in place the IdP metadata the SP trusts; present a " + kind + " whose only signature is by K1, K2 or an outsider's key) that ends in a presented message is replayed on ONE real ServiceProvider value; each history is run twice: the configuration changed by assigning a new metadata value (a message accepted although its key is not in the configuration in force then violates the statement) and by editing the held value in place (disagreements are drift); all other disagreements with the model are drift"
+	rep.Rule = "every history of spec/SPTrustHistory.tla (initial trust set, then up to MaxLen steps of: replace / edit in place the IdP metadata the SP trusts; present a " + kind + " whose only signature is by K1, K2 or an outsider's key - a SAML response is signed on the Response or, one fixed message per key, on the Assertion alone; \"tampered\" is that assertion-signed message with another NameID put in after signing, ID and Signature element kept: returning its assertion violates C01 at every position of every history, also after the genuine message was accepted by the same value) that ends in a presented message is replayed on ONE real ServiceProvider value; each history is run twice: the configuration changed by assigning a new metadata value (a message accepted although its key is not in the configuration in force then violates the statement) and by editing the held value in place (disagreements are drift); all other disagreements with the model are drift"
 	lines := loadLines(t, "trusthist.ndjson")
 	if len(lines) == 0 {
 		rep.Break("no histories")
@@ -73,15 +84,33 @@ func trustHistoryRun(t *testing.T, prop, kind string) {
 	now := time.Date(2024, 4, 2, 9, 0, 0, 0, time.UTC)
 	saml.TimeNow = func() time.Time { return now }
 	ts := func(d time.Duration) *string { return sp(now.Add(d).UTC().Format("2006-01-02T15:04:05.000Z")) }
-	mkResponse := func(k string, n int) []byte {
-		as := buildAssertion(AssnSpec{ID: fmt.Sprintf("id-a-%s-%d", k, n), IssueInstant: ts(0), Issuer: sp(idpEntityID),
+	mkResponseAt := func(k, tag, level string) []byte {
+		as := buildAssertion(AssnSpec{ID: "id-a-" + k + "-" + tag, IssueInstant: ts(0), Issuer: sp(idpEntityID),
 			NameID: sp("user-of-" + k), Confs: []ConfSpec{{Recipient: sp(spACS), InResponseTo: sp("id-req-1"), NotOnOrAfter: ts(90 * time.Second)}},
 			NotBefore: ts(-time.Second), NotOnOrAfter: ts(90 * time.Second), Audiences: []string{spEntityID},
 			AuthnInstant: ts(0), SessionIndex: "si", Attrs: []AttrSpec{{Name: "uid", FriendlyName: "uid", Values: []string{k}}}})
-		resp := buildResponse(RespSpec{ID: fmt.Sprintf("id-r-%s-%d", k, n), InResponseTo: sp("id-req-1"), IssueInstant: ts(0),
+		resp := buildResponse(RespSpec{ID: "id-r-" + k + "-" + tag, InResponseTo: sp("id-req-1"), IssueInstant: ts(0),
 			Destination: sp(spACS), Issuer: sp(idpEntityID), Status: sp(statusOK)})
+		if level == "assertion" {
+			resp.AddChild(signEnveloped(as, key(trustKeyName[k]), SigOpts{}))
+			return docBytes(resp)
+		}
 		resp.AddChild(as)
 		return docBytes(signEnveloped(resp, key(trustKeyName[k]), SigOpts{}))
+	}
+	mkResponse := func(k string, n int) []byte { return mkResponseAt(k, fmt.Sprint(n), "response") }
+	// the assertion-signed message of a key is ONE message (built once: same ID, same SignatureValue at every
+	// step of every history); its tampered form differs in the text of the NameID only
+	genuineAs, tamperedAs := map[string][]byte{}, map[string][]byte{}
+	for k := range trustKeyName {
+		g := mkResponseAt(k, "as", "assertion")
+		from, to := []byte(">user-of-"+k+"<"), []byte(">"+trustTamperedNameID(k)+"<")
+		tm := bytes.Replace(g, from, to, -1)
+		if bytes.Count(g, from) != 1 || bytes.Count(tm, to) != 1 || len(tm) == len(g) || !bytes.Contains(g, []byte("SignatureValue")) {
+			rep.Break("the tampered form of the assertion-signed message of %s was not built", k)
+			return
+		}
+		genuineAs[k], tamperedAs[k] = g, tm
 	}
 	// (validateLogoutResponse reads the wall clock, not saml.TimeNow: the instant is taken from it)
 	mkLogout := func(k string, n int) string {
@@ -100,6 +129,9 @@ func trustHistoryRun(t *testing.T, prop, kind string) {
 		// the SP already holds are edited in place (an implementation may legitimately key a cache on
 		// the identity of the metadata value: disagreements there are drift)
 		for _, inPlace := range []bool{false, true} {
+			if st := h.Hist[len(h.Hist)-1]; st.Kind == "tampered" {
+				rep.Eval(map[bool]string{true: "TamperedAfterGenuine", false: "TamperedFirst"}[h.genuineBefore(len(h.Hist)-1)], sig)
+			}
 			var s *saml.ServiceProvider
 			var current []string
 			var obs []string
@@ -118,10 +150,21 @@ func trustHistoryRun(t *testing.T, prop, kind string) {
 				case "present":
 					accepted := false
 					detail := ""
+					nameID := ""
 					p, msg := safely(func() {
-						if st.Kind == "response" {
-							a, err := s.ParseXMLResponse(mkResponse(st.K, n), []string{"id-req-1"}, mustURL(spACS))
+						if st.Kind == "response" || st.Kind == "tampered" {
+							doc := tamperedAs[st.K]
+							switch {
+							case st.Kind == "response" && st.Level == "assertion":
+								doc = genuineAs[st.K]
+							case st.Kind == "response":
+								doc = mkResponse(st.K, n)
+							}
+							a, err := s.ParseXMLResponse(doc, []string{"id-req-1"}, mustURL(spACS))
 							accepted = err == nil && a != nil
+							if accepted && a.Subject != nil && a.Subject.NameID != nil {
+								nameID = a.Subject.NameID.Value
+							}
 							if err != nil {
 								detail = err.Error()
 								if ire, ok := err.(*saml.InvalidResponseError); ok && ire.PrivateErr != nil {
@@ -136,7 +179,7 @@ func trustHistoryRun(t *testing.T, prop, kind string) {
 							}
 						}
 					})
-					obs = append(obs, fmt.Sprintf("%s/%s:%v", st.Kind, st.K, accepted))
+					obs = append(obs, fmt.Sprintf("%s/%s:%v", st.form(), st.K, accepted))
 					trusted := false
 					for _, c := range current {
 						trusted = trusted || c == st.K
@@ -148,13 +191,18 @@ func trustHistoryRun(t *testing.T, prop, kind string) {
 						rep.DriftCase(key_+":panic", "panic: "+strings.SplitN(msg, "\n", 2)[0], replay)
 						return
 					}
+					if st.Kind == "tampered" && kind == "response" && accepted {
+						// no configuration and no earlier presentation makes the altered content signed content
+						rep.Violation(fmt.Sprintf("%s:trust-history:%s", prop, sig), fmt.Sprintf("step %d: the SP returned an assertion with NameID %q from the assertion-signed response of %s whose NameID was replaced after signing (ID and Signature element kept; genuine message accepted earlier by this value: %v; configuration then trusts %v, %s)", n, nameID, st.K, h.genuineBefore(n), current, map[bool]string{true: "edited in place", false: "replaced"}[inPlace]), replay)
+						return
+					}
 					if st.Kind == kind && accepted && !trusted && !inPlace {
 						what := map[string]string{"response": "returned an assertion", "logout": "reported the logout response valid"}[kind]
 						rep.Violation(fmt.Sprintf("%s:trust-history:%s", prop, sig), fmt.Sprintf("step %d: the SP %s whose only signature is by %s, while its configuration at that moment trusts only %v (configuration %s)", n, what, st.K, current, map[bool]string{true: "edited in place", false: "replaced"}[inPlace]), replay)
 						return
 					}
 					if accepted != (st.V == "accept") {
-						rep.DriftCase(key_, fmt.Sprintf("step %d: %s signed by %s under trust %v: real accepted=%v (%s), model %s", n, st.Kind, st.K, current, accepted, detail, st.V), replay)
+						rep.DriftCase(key_, fmt.Sprintf("step %d: %s signed by %s under trust %v: real accepted=%v (%s), model %s", n, st.form(), st.K, current, accepted, detail, st.V), replay)
 						return
 					}
 				}
@@ -166,6 +214,22 @@ func trustHistoryRun(t *testing.T, prop, kind string) {
 		}
 	})
 	rep.Extra["histories"] = len(lines)
+	if rep.Classes["TamperedAfterGenuine"] == 0 || rep.Classes["TamperedFirst"] == 0 {
+		rep.Break("vacuous: no history presents a tampered message after the accepted genuine one / as a first presentation")
+	}
+}
+
+func trustTamperedNameID(k string) string { return "someone-else-than-user-of-" + k }
+
+// genuineBefore: was the genuine assertion-signed message of step n's key presented before step n (the
+// model's verdict then decides whether it was accepted)
+func (h trustHist) genuineBefore(n int) bool {
+	for _, st := range h.Hist[:n] {
+		if st.A == "present" && st.Kind == "response" && st.Level == "assertion" && st.K == h.Hist[n].K && st.V == "accept" {
+			return true
+		}
+	}
+	return false
 }
 
 func TestC01TrustHistory(t *testing.T) { trustHistoryRun(t, "C01", "response") }
